@@ -17,7 +17,7 @@
 (* (action Evaluate taken twice on the same spec object) lives in MC_C15 / Trace_C15.     *)
 EXTENDS GlomData
 
-CONSTANT RMutant  \* "none" | "init_once" | "first_as_init" | "merge_into_first" | "lazy_extra_level" | "count_bad_init" | "sub_in_try"
+CONSTANT RMutant  \* "none" | "init_once" | "first_as_init" | "merge_into_first" | "lazy_extra_level" | "count_bad_init" | "sub_in_try" | "shared_copied" | "idkeys"
                   \* wrong mechanisms the laws must reject (vacuity check)
 
 \* ================================================================================
@@ -35,18 +35,30 @@ SErr(e) == [ok |-> FALSE, v |-> VNone, exc |-> e]
 \* numbers: ints and exact multiples of one half (float / Fraction in Python)
 \* and decimal.Decimal (whole values, [k: "dec", i]), which mixes with ints but not with float / Fraction
 VDec(i)   == [k |-> "dec", i |-> i]
-IsNum(v)  == v.k \in {"int", "frac", "dec"}
+\* bool is an int (False + 1 = 1)
+IsNum(v)  == v.k \in {"int", "frac", "dec", "bool"}
+IntOf(v)  == IF v.k = "bool" THEN (IF v.b THEN 1 ELSE 0) ELSE v.i
 NumCompat(a, b) == ~(a.k = "dec" /\ b.k = "frac") /\ ~(a.k = "frac" /\ b.k = "dec")
-Halves(v) == IF v.k = "int" THEN 2 * v.i ELSE IF v.d = 1 THEN 2 * v.n ELSE v.n
+Halves(v) == IF v.k \in {"int", "bool"} THEN 2 * IntOf(v) ELSE IF v.d = 1 THEN 2 * v.n ELSE v.n
 FromHalves(h, frac) ==
   IF ~frac THEN VInt(h \div 2) ELSE IF h % 2 = 0 THEN VFrac(h \div 2, 1) ELSE VFrac(h, 2)
-NumAdd(a, b)    == IF a.k = "dec" \/ b.k = "dec" THEN VDec(a.i + b.i)
+NumAdd(a, b)    == IF a.k = "dec" \/ b.k = "dec" THEN VDec(IntOf(a) + IntOf(b))
                    ELSE FromHalves(Halves(a) + Halves(b), a.k = "frac" \/ b.k = "frac")
-NumDigits(a, b) == IF a.k = "dec" \/ b.k = "dec" THEN VDec(a.i * 10 + b.i)
+NumDigits(a, b) == IF a.k = "dec" \/ b.k = "dec" THEN VDec(IntOf(a) * 10 + IntOf(b))
                    ELSE FromHalves(Halves(a) * 10 + Halves(b), a.k = "frac" \/ b.k = "frac")
 
 \* characters of the strings the universes use (TLC cannot index strings): "", "uv" and
 \* one-character strings
+\* Python's == between dict keys: numbers are equal by value whatever their type (1 == 1.0 == True);
+\* the dict keeps the key object that came first
+NumVal(v) == IF v.k = "frac" THEN <<v.n, v.d>> ELSE <<IntOf(v), 1>>
+PyEq(a, b) == IF IsNum(a) /\ IsNum(b) THEN NumVal(a) = NumVal(b) ELSE a = b
+RECURSIVE PFind(_, _, _)
+PFind(items, key, i) == IF i > Len(items) THEN 0 ELSE IF PyEq(items[i][1], key) THEN i ELSE PFind(items, key, i + 1)
+PHas(items, key) == PFind(items, key, 1) # 0
+PSet(items, key, val) ==
+  IF PHas(items, key) THEN [items EXCEPT ![PFind(items, key, 1)][2] = val] ELSE Append(items, <<key, val>>)
+
 CharsOf(s) == IF s = "" THEN <<>> ELSE IF s = "uv" THEN <<VStr("u"), VStr("v")>> ELSE <<VStr(s)>>
 
 \* ================================================================================
@@ -82,10 +94,10 @@ SUpdatePairs(items, els, i) ==
        ELSE LET kv == SIter(e) IN
             IF Len(kv) # 2 THEN SErr("ValueError")
             ELSE IF ~SHashable(kv[1]) THEN SErr("TypeError")
-            ELSE SUpdatePairs(SetKey(items, kv[1], kv[2]), els, i + 1)
+            ELSE SUpdatePairs(PSet(items, kv[1], kv[2]), els, i + 1)
 RECURSIVE SUpdateMap(_, _, _)
 SUpdateMap(items, pairs, i) ==
-  IF i > Len(pairs) THEN items ELSE SUpdateMap(SetKey(items, pairs[i][1], pairs[i][2]), pairs, i + 1)
+  IF i > Len(pairs) THEN items ELSE SUpdateMap(PSet(items, pairs[i][1], pairs[i][2]), pairs, i + 1)
 SUpdate(d, v) ==
   IF v.k \in {"dict", "odict"} THEN SOk([d EXCEPT !.items = SUpdateMap(@, v.items, 1)])
   ELSE IF SIterable(v)
@@ -95,7 +107,7 @@ SUpdate(d, v) ==
 RECURSIVE SKeepFirstMap(_, _, _)
 SKeepFirstMap(items, pairs, i) ==
   IF i > Len(pairs) THEN items
-  ELSE SKeepFirstMap(IF HasKey(items, pairs[i][1]) THEN items ELSE Append(items, pairs[i]), pairs, i + 1)
+  ELSE SKeepFirstMap(IF PHas(items, pairs[i][1]) THEN items ELSE Append(items, pairs[i]), pairs, i + 1)
 SKeepFirst(d, v) ==
   IF v.k \in {"dict", "odict"} THEN SOk([d EXCEPT !.items = SKeepFirstMap(@, v.items, 1)])
   ELSE SErr("AttributeError")
@@ -121,6 +133,7 @@ SInit(init) ==
     [] init = "strx" -> VStr("x")                                               \* lambda: 'x'
     [] init = "tup0" -> DTuple(<<VInt(0)>>)                                     \* lambda: (0,)
     [] init = "lazy" -> DList(<<>>)
+    [] init = "shlist" -> DList(<<>>)      \* lambda: SHARED - the same list object at every call
 
 \* functools.reduce(op, elems, acc)
 RECURSIVE SReduce(_, _, _, _)
@@ -209,6 +222,11 @@ HPlus(h, a, b, inplace) ==
 RECURSIVE HHashable(_, _)
 HHashable(h, v) == IF ~IsRef(v) THEN TRUE
                    ELSE h[v.a].cls = "tuple" /\ \A i \in 1..Len(h[v.a].items) : HHashable(h, h[v.a].items[i])
+\* the accumulator's own __setitem__ (mutant "idkeys": a mapping that tells 1, 1.0 and True apart)
+MSet(items, key, val) == IF RMutant = "idkeys" THEN SetKey(items, key, val) ELSE PSet(items, key, val)
+RECURSIVE HUpdateMap(_, _, _)
+HUpdateMap(items, pairs, i) ==
+  IF i > Len(pairs) THEN items ELSE HUpdateMap(MSet(items, pairs[i][1], pairs[i][2]), pairs, i + 1)
 RECURSIVE HUpdatePairs(_, _, _, _)
 HUpdatePairs(h, d, els, i) ==                     \* dict.update(d, iterable of pairs), in place
   IF i > Len(els) THEN HOk(h, d, d.a)
@@ -217,10 +235,10 @@ HUpdatePairs(h, d, els, i) ==                     \* dict.update(d, iterable of 
        ELSE LET kv == HIter(h, e) IN
             IF Len(kv) # 2 THEN HErr(h, "ValueError")
             ELSE IF ~HHashable(h, kv[1]) THEN HErr(h, "TypeError")
-            ELSE HUpdatePairs([h EXCEPT ![d.a].items = SetKey(@, kv[1], kv[2])], d, els, i + 1)
+            ELSE HUpdatePairs([h EXCEPT ![d.a].items = MSet(@, kv[1], kv[2])], d, els, i + 1)
 HUpdate(h, d, v) ==
   IF IsRef(v) /\ h[v.a].cls \in {"dict", "odict"}
-  THEN HOk([h EXCEPT ![d.a].items = SUpdateMap(@, h[v.a].items, 1)], d, d.a)
+  THEN HOk([h EXCEPT ![d.a].items = HUpdateMap(@, h[v.a].items, 1)], d, d.a)
   ELSE IF HIterable(h, v) THEN HUpdatePairs(h, d, HIter(h, v), 1)
   ELSE HErr(h, "TypeError")
 HKeepFirst(h, d, v) ==
@@ -242,7 +260,7 @@ HOp(h, op, a, b) ==
 HInit(h, init) ==
   CASE init \in {"int", "float", "half", "five", "str", "strx", "dec"} -> [h |-> h, v |-> SInit(init)]
     [] init = "tup0" -> [h |-> Append(h, Cell("tuple", <<VInt(0)>>)), v |-> VRef(NewAddr(h))]
-    [] init \in {"list", "lazy"} -> [h |-> Append(h, Cell("list", <<>>)), v |-> VRef(NewAddr(h))]
+    [] init \in {"list", "lazy", "shlist"} -> [h |-> Append(h, Cell("list", <<>>)), v |-> VRef(NewAddr(h))]
     [] init = "seeded" -> [h |-> Append(h, Cell("list", <<VInt(0)>>)), v |-> VRef(NewAddr(h))]
     [] init \in {"tuple", "dict", "odict"} -> [h |-> Append(h, Cell(init, <<>>)), v |-> VRef(NewAddr(h))]
 
@@ -260,7 +278,9 @@ MLoop(h, op, acc, elems, i, inits, muts) ==
        ELSE MOut(r.h, FALSE, VNone, r.exc, inits, acc, muts)
 
 MFold(h, op, init, elems, persist) ==
-  IF RMutant = "init_once" /\ persist # VNone                       \* init evaluated once, at construction
+  IF init = "shlist" /\ persist # VNone /\ RMutant # "shared_copied"   \* init() hands out the object it handed out before
+  THEN MLoop(h, op, persist, elems, 1, 1, <<>>)
+  ELSE IF RMutant = "init_once" /\ persist # VNone                       \* init evaluated once, at construction
   THEN MLoop(h, op, persist, elems, 1, 0, <<>>)
   ELSE IF RMutant = "first_as_init" /\ op = "iadd" /\ elems # <<>>   \* ret = first element, then iadd
   THEN MLoop(h, op, elems[1], elems, 2, 0, <<>>)
@@ -337,8 +357,16 @@ RefShown(h0, root, sp) ==
   IN [ok |-> r.ok, v |-> r.v, exc |-> r.exc]
 MinInits(h0, root, sp) == LET st == RefSub(sp, Deep(h0, root)) IN IF st.ok THEN RefInits(sp, st.v) ELSE 0
 
-\* L1  the result equals the plain-Python reduction (value, or class of the exception)
-LawValue(h0, h, root, sp, o) == Shown(h, o) = RefShown(h0, root, sp)
+\* an init that hands out one SHARED list: plain Python then extends that one object again at every
+\* evaluation, and every result is that object - after k evaluations all of them show k rounds
+RECURSIVE Rep(_, _)
+Rep(s, k) == IF k = 0 THEN <<>> ELSE s \o Rep(s, k - 1)
+RefShownK(h0, root, sp, k) ==
+  LET r == RefShown(h0, root, sp) IN
+  IF sp.init = "shlist" /\ r.ok THEN [r EXCEPT !.v = DList(Rep(r.v.items, k))] ELSE r
+\* L1  the result equals the plain-Python reduction (value, or class of the exception); k = number of
+\*     evaluations made so far
+LawValue(h0, h, root, sp, o, k) == Shown(h, o) = RefShownK(h0, root, sp, k)
 \* L1b init() is called afresh (at least once) during every eager evaluation of an iterable target
 LawInits(h0, root, sp, o) == o.inits >= MinInits(h0, root, sp)
 \* L2  no element of the input is mutated
